@@ -18,6 +18,9 @@ the alarm whose callback is running is excluded: the code asserts against it) -/
 inductive Act where
   | refresh (j : Nat) | disable (j : Nat) | enable (j : Nat) | destroy (j : Nat)
   | calMask (m : Nat) | calSp (sp : List (Nat × Bool))
+  | cleanup (j : Nat)                                            -- cleanup() (the harness re-installs the callback right after)
+  | init (j : Nat) (sod : Int) (mask : List Bool) (wd : Bool)    -- initialize() with another specification
+  | tz (j : Nat) (minutes : Int)                                 -- setTimezone()
 deriving Repr
 
 /-- one served expiry (ghost log) -/
@@ -93,7 +96,26 @@ def wCalUpdate (w : World) (cal : Calendar) : World × Bool :=
     | none => (acc.1, true)
     | some _ => (wRefresh acc.1 j, acc.2)) (w1, false)
 
+/-- initialize(sod, …) of slot j -/
+def wInitOp (w : World) (j : Nat) (sod : Int) (m : List Bool) (wd : Bool) : World × Bool :=
+  match w.get j with
+  | none => (w, false)
+  | some a => let r := initAlarm a sod m wd; (w.put j (some r.1), r.2)
+
+def wTz (w : World) (j : Nat) (m : Int) : World × Bool :=
+  match w.get j with
+  | none => (w, false)
+  | some a => (w.put j (some (setTimezone a m)), true)
+
+def wSetCb (w : World) (j : Nat) : World × Bool :=
+  match w.get j with
+  | none => (w, false)
+  | some a => (w.put j (some { a with hasCb := true }), true)
+
 def applyAct (w : World) : Act → World
+  | .cleanup j => (wSetCb (wCleanup w j) j).1
+  | .init j sod m wd => (wInitOp w j sod m wd).1
+  | .tz j m => (wTz w j m).1
   | .refresh j => wRefresh w j
   | .disable j => (wDisable w j).1
   | .enable j => (wEnable w j).1
@@ -140,6 +162,7 @@ def anyDue (w : World) : Bool :=
 inductive WOp where
   | new (j : Nat) (c : Cls) (script : List Act)
   | init (j : Nat) (sod : Int) (mask : List Bool) (wd : Bool)
+  | initc (j : Nat) (e : Option Cron.Expr)
   | tz (j : Nat) (minutes : Int)
   | enable (j : Nat) | disable (j : Nat) | refresh (j : Nat) | cleanup (j : Nat) | setCb (j : Nat) | destroy (j : Nat)
   | calMask (m : Nat) | calSp (sp : List (Nat × Bool))
@@ -151,19 +174,16 @@ def wOp (w : World) : WOp → World × Bool
   | .new j c sc => match w.get j with
       | some _ => (w, false)
       | none => ({ w.put j (some (fresh c)) with scripts := w.scripts.set j sc }, true)
-  | .init j sod m wd => match w.get j with
+  | .init j sod m wd => wInitOp w j sod m wd
+  | .initc j x => match w.get j with
       | none => (w, false)
-      | some a => let r := initAlarm a sod m wd; (w.put j (some r.1), r.2)
-  | .tz j m => match w.get j with
-      | none => (w, false)
-      | some a => (w.put j (some (setTimezone a m)), true)
+      | some a => let r := initCron a x; (w.put j (some r.1), r.2)
+  | .tz j m => wTz w j m
   | .enable j => wEnable w j
   | .disable j => wDisable w j
   | .refresh j => (wRefresh w j, true)
   | .cleanup j => (wCleanup w j, true)
-  | .setCb j => match w.get j with
-      | none => (w, false)
-      | some a => (w.put j (some { a with hasCb := true }), true)
+  | .setCb j => wSetCb w j
   | .destroy j => (wDestroy w j, true)
   | .calMask m => ((wCalUpdate w { w.cal with weekMask := m }).1, true)
   | .calSp sp => ((wCalUpdate w { w.cal with special := sp }).1, true)
